@@ -314,16 +314,27 @@ func nativeReplay(rel string, cases []replayCase, race bool) ([]string, error) {
 
 	outcomes := make([]string, len(cases))
 	start := 0
-	for start < len(cases) {
-		ctx, cancel := context.WithTimeout(context.Background(), 10*time.Minute)
-		args := []string{"test", "-v", "-vet=off", "-count=1", "-run", "^TestVerifReplay$", "-overlay", ovf, "-modfile=" + sc.modfile, "-timeout", "8m"}
+	// build the test binary once (the package directory may be virtual, so
+	// "go test" cannot chdir into it; the binary is run from the scratch dir)
+	bin := filepath.Join(sc.dir, "replay.test")
+	{
+		args := []string{"test", "-c", "-vet=off", "-overlay", ovf, "-modfile=" + sc.modfile, "-o", bin}
 		if race {
 			args = append(args, "-race")
 		}
 		args = append(args, "./"+rel)
-		cmd := exec.CommandContext(ctx, "go", args...)
+		cmd := exec.Command("go", args...)
 		cmd.Dir = repoDir
-		cmd.Env = append(goEnv(), "VERIF_REPLAY_CASES="+cf, "VERIF_REPLAY_START="+strconv.Itoa(start), "GOCACHE="+envOr("GOCACHE", filepath.Join(os.Getenv("HOME"), ".cache", "go-build")))
+		cmd.Env = goEnv()
+		if out, err := cmd.CombinedOutput(); err != nil {
+			return outcomes, fmt.Errorf("native replay build failed (%v):\n%s", err, tail(string(out), 4000))
+		}
+	}
+	for start < len(cases) {
+		ctx, cancel := context.WithTimeout(context.Background(), 10*time.Minute)
+		cmd := exec.CommandContext(ctx, bin, "-test.v", "-test.run", "^TestVerifReplay$", "-test.timeout", "8m")
+		cmd.Dir = sc.dir
+		cmd.Env = append(goEnv(), "VERIF_REPLAY_CASES="+cf, "VERIF_REPLAY_START="+strconv.Itoa(start))
 		var out bytes.Buffer
 		cmd.Stdout = &out
 		cmd.Stderr = &out
